@@ -1,6 +1,6 @@
 (* Property C03: the signature extracted from wire bytes is what the IP/TCP headers say. *)
 From PV Require Import Model.Prelude Model.Bits Model.Sig Model.Select Model.Options Model.Wire
-  Spec.C03 Proofs.WireP Proofs.OptionsP Proofs.ExtractP.
+  Spec.C03 Proofs.WireP Proofs.OptionsP Proofs.ExtractP Proofs.TrimP.
 
 (* IPv4 header (IHL 5..15, every field value): dissecting the encoding gives the fields back,
    and the quirk set is exactly the documented one (ip4_quirk: ecn, 0+, df, id+, id-). *)
@@ -42,7 +42,7 @@ Print Assumptions C03_tcp.
 Theorem C03_packet4 : forall h th payload o syn_mss,
   wf_ip4 h (enc_tcp th payload) -> h4_proto h = 6 -> h4_off h = 0 -> wf_tcp th ->
   parse_options (th_opts th) (type_of_hdr th =? fSYN) = Ok o ->
-  exists k, parse_packet 4 (enc_ip4 h (enc_tcp th payload)) = Framed (Ok k) /\
+  exists k, parse_datagram 4 (enc_ip4 h (enc_tcp th payload)) = Framed (Ok k) /\
     i_frag (k_ip k) = h4_mf h /\ t_type (k_tcp k) = type_of_hdr th /\
     t_sport (k_tcp k) = th_sport th /\ t_dport (k_tcp k) = th_dport th /\ t_seq (k_tcp k) = th_seq th /\
     SigFields (sig_of k syn_mss) 4 (len (h4_opts h)) (h4_ttl h) th o (20 + len (h4_opts h) + (20 + len (th_opts th))) payload syn_mss /\
@@ -53,7 +53,7 @@ Print Assumptions C03_packet4.
 Theorem C03_packet6 : forall h th payload o syn_mss,
   wf_ip6 h (enc_tcp th payload) -> h6_nh h = 6 -> wf_tcp th ->
   parse_options (th_opts th) (type_of_hdr th =? fSYN) = Ok o ->
-  exists k, parse_packet 6 (enc_ip6 h (enc_tcp th payload)) = Framed (Ok k) /\
+  exists k, parse_datagram 6 (enc_ip6 h (enc_tcp th payload)) = Framed (Ok k) /\
     i_frag (k_ip k) = false /\ t_type (k_tcp k) = type_of_hdr th /\
     t_sport (k_tcp k) = th_sport th /\ t_dport (k_tcp k) = th_dport th /\ t_seq (k_tcp k) = th_seq th /\
     SigFields (sig_of k syn_mss) 6 0 (h6_hlim h) th o (40 + (20 + len (th_opts th))) payload syn_mss /\
@@ -101,3 +101,12 @@ Example C03_example :
     Ok {| o_layout := [2; 4; 8; 1; 3; 0]; o_quirks := mask_of [qZTS1; qNZTS2; qEXWS; qEOLNZ]; o_mss := 1460; o_ts1 := 0; o_ws := 15; o_eol := 3 |} /\
   (exists o, parse_options [2; 3; 5; 1] true = Ok o /\ hasq qBAD (o_quirks o) = true /\ o_mss o = 0).
 Proof. split; [vm_compute; reflexivity | eexists; vm_compute; repeat split]. Qed.
+
+(* Bytes after the end of the datagram (IPv4 total length / IPv6 40 + payload length) -- the padding of a short Ethernet frame --
+   are not part of the packet: a datagram followed by ANY trailer is read exactly as the datagram alone, so every theorem above
+   about [parse_datagram] holds for [parse_packet] (what fingerprint_* see) on the padded bytes. *)
+Theorem C03_trailer_ignored : forall v b t,
+  (v = 4 \/ v = 6) -> (if v =? 4 then ip4 b else ip6 b) <> None ->
+  parse_packet v (b ++ t) = parse_datagram v b.
+Proof. exact parse_packet_trailer. Qed.
+Print Assumptions C03_trailer_ignored.
